@@ -210,6 +210,16 @@ def cases(rng):
       trainable=False)
   add("categorical_calibration_layer", "CategoricalCalibrationConstraints", "full", output_min=0.0, output_max=1.0,
       monotonicities=[(0, 1)])
+  # ---- "falsy" argument values: 0 / 0.0 where None means absent (a truthiness test in get_config / __init__ loses them)
+  add("categorical_calibration_layer", "CategoricalCalibration", "default_zero", num_buckets=4, default_input_value=0)
+  add("categorical_calibration_layer", "CategoricalCalibration", "default_zero_units", num_buckets=3, units=2,
+      default_input_value=0, output_min=0.0, output_max=0.0 + rng.choice([1.0, 2.0]))
+  add("pwl_calibration_layer", "PWLCalibration", "missing_zero", input_keypoints=[1.0, 2.0, 3.0], missing_input_value=0.0,
+      impute_missing=True, missing_output_value=0.0, output_min=-1.0, output_max=0.0)
+  add("pwl_calibration_layer", "PWLCalibration", "missing_zero_learned", input_keypoints=[1.0, 2.0, 3.0],
+      missing_input_value=0.0, impute_missing=True, output_min=0.0)
+  add("lattice_layer", "Lattice", "zero_upper", lattice_sizes=[2, 3], monotonicities=[1, 0], output_min=-1.0, output_max=0.0)
+  add("rtl_layer", "RTL", "seed_zero", num_lattices=3, lattice_rank=2, random_seed=0, output_min=-1.0, output_max=0.0)
   # ---- kfl
   add("kronecker_factored_lattice_layer", "KroneckerFactoredLattice", "full", lattice_sizes=3, units=2, num_terms=3,
       monotonicities=["increasing", 0], output_min=0.0, output_max=1.0, clip_inputs=False,
